@@ -75,7 +75,7 @@ open Discret.SyncOrder in
     `(room, entity, day)`. Any replicas in which no stored row carries a deletion record. -/
 theorem C03_refines_day (d : Defects) (hI : d.ingestIgnoresTombstones = false) (hR : d.syncDeletionRoomScoped = false)
     (hK : d.deletionBatchKeyedById = false) (hE : d.edgesOnlyForFetchedRows = false)
-    (rights : List Bool) (hA : AllRights rights) (dst src : Replica)
+    (rights : Rights) (hA : AllRights rights) (dst src : Replica)
     (hzd : NoZombie dst) (hzs : NoZombie src) (hns : IdsNodup src)
     (hpk : PkFun (fun x => x ∈ dst.ntombs ∨ x ∈ src.ntombs)) (room ent day : Nat) :
     abs (syncDay d rights dst src room ent day).dst = join (abs dst) (abs (slice src room ent day)) :=
@@ -88,7 +88,7 @@ open Discret.SyncOrder in
 theorem C03_refines_pull_days (d : Defects) (hI : d.ingestIgnoresTombstones = false)
     (hR : d.syncDeletionRoomScoped = false) (hK : d.deletionBatchKeyedById = false)
     (hE : d.edgesOnlyForFetchedRows = false) (hS : d.summaryFirstEntityOnly = false)
-    (rights : List Bool) (hA : AllRights rights) (dst src : Replica)
+    (rights : Rights) (hA : AllRights rights) (dst src : Replica)
     (hzd : NoZombie dst) (hzs : NoZombie src) (hns : IdsNodup src)
     (hpk : PkFun (fun x => x ∈ dst.ntombs ∨ x ∈ src.ntombs)) (room : Nat) :
     abs (pull d rights dst src room).dst = joinDays src room (diffDays dst src room) (abs dst) :=
@@ -103,7 +103,7 @@ open Discret.SyncOrder in
 theorem C03_refines_pull (d : Defects) (hI : d.ingestIgnoresTombstones = false)
     (hR : d.syncDeletionRoomScoped = false) (hK : d.deletionBatchKeyedById = false)
     (hE : d.edgesOnlyForFetchedRows = false) (hS : d.summaryFirstEntityOnly = false)
-    (rights : List Bool) (hA : AllRights rights) (dst src : Replica)
+    (rights : Rights) (hA : AllRights rights) (dst src : Replica)
     (hzd : NoZombie dst) (hzs : NoZombie src) (hnd : IdsNodup dst) (hns : IdsNodup src)
     (hpk : PkFun (fun x => x ∈ dst.ntombs ∨ x ∈ src.ntombs))
     (hld : IsLogOf dst.sigs dst.log) (hls : IsLogOf src.sigs src.log) (hsig : SigsDetermine dst src) (room : Nat) :
@@ -112,7 +112,7 @@ theorem C03_refines_pull (d : Defects) (hI : d.ingestIgnoresTombstones = false)
 
 open Discret.SyncOrder in
 /-- the intended behaviour is such a model -/
-theorem C03_refines_pull_intended (rights : List Bool) (hA : AllRights rights) (dst src : Replica)
+theorem C03_refines_pull_intended (rights : Rights) (hA : AllRights rights) (dst src : Replica)
     (hzd : NoZombie dst) (hzs : NoZombie src) (hnd : IdsNodup dst) (hns : IdsNodup src)
     (hpk : PkFun (fun x => x ∈ dst.ntombs ∨ x ∈ src.ntombs))
     (hld : IsLogOf dst.sigs dst.log) (hls : IsLogOf src.sigs src.log) (hsig : SigsDetermine dst src) (room : Nat) :
@@ -130,7 +130,7 @@ open Discret.SyncOrder in
 example :
     let dst := refineWorld.peer 1
     let src := refineWorld.peer 0
-    let a := abs (pull Defects.none [true, true] dst src 1).dst
+    let a := abs (pull Defects.none [some 0, some 0] dst src 1).dst
     let j := join (abs dst) (abs (inRoom src 1))
     [1, 2, 3, 4].map a.ver = [1, 2, 3, 4].map j.ver ∧ [1, 2, 3, 4].map a.dead = [1, 2, 3, 4].map j.dead ∧
     a.ver 1 = some (86402000, 15) ∧ a.ver 2 = none ∧ a.dead 2 = true ∧ a.ver 3 = some (86402000, 16) := by
